@@ -112,18 +112,23 @@ def run(ctx, rep):
         for b_ in ops:
             if c_pos[a] < c_pos[b_] and not (wild_pos[a] < wild_pos[b_]) and wild_pos[a] != wild_pos[b_]:
                 la, lb = binary[wild_pos[a]], binary[wild_pos[b_]]
-                bad_pairs.setdefault((la["fn"].split("::")[-1], lb["fn"].split("::")[-1]), []).append((a, b_))
-    for (fa, fb), pairs in sorted(bad_pairs.items()):
+                bad_pairs.setdefault((wild_pos[a], wild_pos[b_]), []).append((a, b_))
+
+    def lname(i):
+        # a level is named by the operators it consumes, not by the parser function's name (renames must not change keys)
+        return "level[" + " ".join(sorted(norm[i])) + "]"
+    for (ia, ib), pairs in sorted(bad_pairs.items()):
         a, b_ = pairs[0]
-        lv = [x for x in binary if x["fn"].endswith(fa)][0]
-        rep.ob("ladder", f"order:{fa}-binds-tighter-than:{fb}", False,
+        lv = binary[ia]
+        fa, fb = lv["fn"].split("::")[-1], binary[ib]["fn"].split("::")[-1]
+        rep.ob("ladder", f"order:{lname(ia)}-binds-tighter-than:{lname(ib)}", False,
                f"in C and GNU ld `{a}` binds looser than `{b_}` ({len(pairs)} such operator pairs between these two levels); wild parses {fa} below... i.e. `{a}` tighter than `{b_}`: `1 {a} 2 {b_} 2` groups as 1 {a} (2 {b_} 2) in GNU ld but as (1 {a} 2) {b_} 2 in wild",
                lv["file"], lv["line"])
     # separate levels for equality and relational
     for lv, t in zip(binary, norm):
         if t & {"==", "!="} and t & {"<", "<=", ">", ">="}:
             rep.ob("ladder", "merged:equality+relational", False, "equality and relational operators share one level: `1 < 2 == 1` parses as a single non-chained comparison instead of (1 < 2) == 1", lv["file"], lv["line"])
-        rep.ob("ladder", f"assoc:{lv['fn'].split('::')[-1]}", lv["chained"] is True,
+        rep.ob("ladder", f"assoc:{lname(binary.index(lv))}", lv["chained"] is True,
                f"level {sorted(t)} {'chains (left-associative)' if lv['chained'] else 'accepts a single operator: `a op b op c` is rejected or mis-parsed, GNU ld chains left-to-right'}", lv["file"], lv["line"])
     n_ok = sum(1 for a in ops for b_ in ops if c_pos[a] < c_pos[b_] and wild_pos[a] < wild_pos[b_])
     rep.ob("ladder", "pairs-in-C-order", n_ok >= 1, f"{n_ok} operator pairs are ordered as in C")
